@@ -517,7 +517,8 @@ def rule_direct_solver(rep: Report, repo: Repo):
         if isinstance(s, ast.Assign) and isinstance(s.targets[0], ast.Name):
             asg[s.targets[0].id] = s.value
     # grouped_greens_functions: kernel args routed, conj under flag, energy = group representative
-    gg = [d for d in nested_defs(outer) if d.name == "grouped_greens_functions"]
+    from .e7b import _greens_grouping_helper
+    gg = _greens_grouping_helper(repo, outer)
     if len(gg) == 1:
         from .paths import enum_paths
         from .resolve import rtext, run_block
